@@ -827,6 +827,39 @@ def module_def_strings_are_nullable(ctx):
             ctx.ob("R20.12", "%s|string(%s)|behind-non-null" % (f.name, key), ok, f.loc(c),
                    "a string is built from %s %s a test that it is not null" % (key, "behind" if ok else "WITHOUT"))
     ctx.floor("R20.12", "strings built from module-definition fields in the database library", n, 2)
+    # ... and the same for looking INTO such a string (S10-C20: has_library_name() read `_def->library_name[0]` behind a
+    # test of _def only; every database generated without -library crashed the has-name queries)
+    m = 0
+    for f in db.functions:
+        if "/interrogatedb/" not in f.file:
+            continue
+        for y in f.walk():
+            base = None
+            if y.get("k") == "idx":
+                base = strip_casts(peel(y.get("b")))
+            elif y.get("k") == "un" and y.get("op") == "*":
+                base = strip_casts(peel(y.get("e")))
+            if not (base is not None and base.get("k") == "mem" and (base.get("n") or "").startswith("InterrogateModuleDef::") and "char" in (base.get("t") or "")):
+                continue
+            m += 1
+            key = show(base).replace(" ", "")
+
+            def nonnull2(atom, truth, key=key):
+                ca = G.cmp_atom(atom)
+                if ca:
+                    op, u, v = ca
+                    op = op if truth else G.NEG[op]
+                    for p_, q_ in ((u, v), (v, u)):
+                        if p_ is not None and q_ is not None and show(p_).replace(" ", "") == key and (strip_casts(peel(q_)) or {}).get("k") == "nullp":
+                            return op == "!="
+                    return False
+                a = strip_casts(peel(atom)) if atom is not None else None
+                return a is not None and show(a).replace(" ", "") == key and truth
+            e = G.edges_where(f, nonnull2)
+            ok = bool(e) and G.gated(f, y, e)
+            ctx.ob("R20.12", "%s|%s[..]|behind-non-null" % (f.name, key), ok, f.loc(y),
+                   "a character of %s is read %s a test that the pointer is not null" % (key, "behind" if ok else "WITHOUT"))
+    ctx.info("R20.12: %d direct character reads of module-definition strings" % m)
 
 
 def merged_entities_keep_the_surviving_index(ctx):
